@@ -318,6 +318,14 @@ func (x *Explorer) ConfirmExact(target *E1State, opts ConfirmOpts) *Confirmation
 		}
 		frontier = next
 	}
+	// split steps: only the holds of the candidate's own trace are tried (the search looks for an exact-queue
+	// schedule of the same violation, not for another way of splitting steps)
+	allowedHolds := map[string]bool{}
+	for _, t := range target.Trace() {
+		if t.Kind == "hold" {
+			allowedHolds[fmt.Sprintf("%s|%s|%d", t.Ctrl, t.ID, t.K)] = true
+		}
+	}
 	c := &Confirmation{}
 	if _, ok := xs.dist[x.init.content]; !ok {
 		c.Reason = "initial content not in the cone (internal error)"
@@ -565,6 +573,12 @@ func (x *Explorer) ConfirmExact(target *E1State, opts ConfirmOpts) *Confirmation
 				if n.env.Held == "" && n.env.Holds < sc.HoldBudget && r.effects > 0 {
 					for k := 1; k < 40; k++ {
 						ht := Trans{Kind: "hold", Ctrl: tr.Ctrl, ID: tr.ID, K: k, Src: tr.Src}
+						if len(allowedHolds) == 0 {
+							break
+						}
+						if !allowedHolds[fmt.Sprintf("%s|%s|%d", tr.Ctrl, tr.ID, k)] {
+							continue
+						}
 						hr := xs.act(n.store, n.env, ht)
 						if !hr.ok {
 							break
@@ -979,7 +993,7 @@ func (c *candidates) resolve(x *Explorer, rep *Report, sc *Scenario) {
 			trace := p.s.Trace()
 			if why := x.RealizeExact(trace, c.needIdle, nil); why == "" {
 				if ok, detail := p.check(x.W); ok {
-					conf = &Confirmation{Confirmed: true, Schedule: trace, Detail: detail + " [the abstraction's own trace re-executed under exact queues]", Nodes: conf.Nodes}
+					conf = &Confirmation{Confirmed: true, Schedule: append([]Trans{}, x.realized...), Detail: detail + " [the abstraction's own trace re-executed under exact queues]", Nodes: conf.Nodes}
 				} else {
 					conf.Reason += "; own trace under exact queues: the violation does not show: " + detail
 				}
